@@ -32,7 +32,7 @@ ASSUMPTIONS = [
 MET = ['env:SIM_A==1', '--sim-flag', 'linux', 'posix', 'cpython', 'py3', 'module:os', 'env:SIM_A', 'env:SIM_B!=1', 'CPython', 'Linux',
        'module:json.decoder', 'module:xdoctest.utils']
 UNMET_A = ['env:SIM_NOT_SET', 'env:SIM_A==2', '--sim-absent', 'win32', 'module:sim_no_such_module', 'module:json.sim_no_such_sub',
-           'module:xdoctest.sim_nope']
+           'module:xdoctest.sim_nope', 'module:sim_nopkg.sub']
 UNMET_B = ['env:SIM_A!=1', 'pypy', 'nt', 'env:SIM_OTHER==x', '--sim-absent-2']
 STMT_FORMS = ['assign', 'emit', 'print', 'expr', 'multiline', 'multicall', 'for', 'if', 'with', 'try', 'semi',
               'semiemit', 'callmod', 'strdirective', 'write', 'decoclass', 'decoasync', 'decodef2', 'blankprompt', 'comment']
@@ -169,6 +169,9 @@ def generate(rng, tier):
     if how_defaults == 'cli':
         opt = ','.join(('+' if v else '-') + k for k, v in sorted(defaults.items()))
         ops.append({'op': 'cli', 'argv': ['PATH:simpkg/m0.py', 'all', '--verbose=%d' % rng.choice([0, 1, 3]), '--options=' + opt]})
+        if rng.random() < 0.4:
+            # the environment suggests other defaults; what is given on the command line counts
+            env['environ'] = dict(env.get('environ', {}), XDOCTEST_OPTIONS=','.join(('-' if v else '+') + k for k, v in sorted(defaults.items())))
     else:
         for dtid in gen.doctest_ids(world):
             op = {'op': 'run_obj', 'dt': dtid, 'verbose': rng.choice([0, 0, 1, 3]), 'on_error': rng.choice(['return', 'return', 'raise'])}
